@@ -57,6 +57,7 @@ type tracer struct {
 	created      int
 	issued       int
 	suicides     int
+	topFailOp    string // the op the top-level frame was refused at (distribution is reported)
 	tokenMoves   int
 
 	// jump-destination analysis shared under the zero code hash (finding K1): length of the bitmap
@@ -217,6 +218,9 @@ func (t *tracer) CaptureState(env *evm.EVM, pc uint64, op evm.OpCode, gas, cost 
 	t.closePending(f, stack)
 	if err != nil {
 		t.failedFrames++
+		if depth == 1 {
+			t.topFailOp = op.String()
+		}
 		if memory.Len() != f.mem {
 			t.find("meter:refused-step-expanded-memory", "%v at pc %d (depth %d) was refused (%v) but memory grew from %d to %d bytes", op, pc, depth, err, f.mem, memory.Len())
 		}
